@@ -2924,14 +2924,17 @@ def filter_fields(toks, keep, fired):
     return out
 
 
-DEFAULT_FEATURES = {"serde"}
+import threading
+_FEAT = threading.local()      # per thread: check.py extracts several units concurrently in one process
+def _features():
+    return getattr(_FEAT, "v", {"serde"})
 
 
 def eval_cfg(expr):
     """evaluate a whitespace-free cfg predicate for the crate's default feature set"""
     m = re.fullmatch(r'feature="([\w-]+)"', expr)
     if m:
-        return m.group(1) in DEFAULT_FEATURES
+        return m.group(1) in _features()
     m = re.fullmatch(r'not\((.*)\)', expr)
     if m:
         return not eval_cfg(m.group(1))
@@ -3378,9 +3381,8 @@ def process(template_path, unit, depth=0):
         if s.startswith("//@features "):
             # unit-level switch (additive; unit chordal_compact): `#[cfg(feature = ..)]` is evaluated (rule R12, field filter) for the
             # listed cargo features from here on instead of the default set; build_unit resets it for every unit
-            global DEFAULT_FEATURES
-            DEFAULT_FEATURES = {f.strip() for f in s[len("//@features "):].split(",") if f.strip()}
-            unit.emit(f"// ---- cfg evaluated for features {sorted(DEFAULT_FEATURES)}\n")
+            _FEAT.v = {f.strip() for f in s[len("//@features "):].split(",") if f.strip()}
+            unit.emit(f"// ---- cfg evaluated for features {sorted(_features())}\n")
             i += 1
             continue
         m = re.match(r"//@(fn|struct|enum|const|trait|type)\s+(.*)", s)
@@ -3422,8 +3424,7 @@ def build_unit(name, outdir):
     tpl = os.path.join(VERIF, "units", name + ".rs")
     unit = Unit(name)
     _file_cache.clear()
-    global DEFAULT_FEATURES
-    DEFAULT_FEATURES = {"serde"}
+    _FEAT.v = {"serde"}
     process(tpl, unit)
     os.makedirs(outdir, exist_ok=True)
     out = os.path.join(outdir, name + ".rs")
